@@ -17,6 +17,7 @@ PROPERTY WritesRefused
 PROPERTY ReadsWork
 PROPERTY HelpersPreserveSource
 PROPERTY NoSilentUpgrade
+PROPERTY WritableOpensAreExplicit
 PROPERTY ChangeNeedsWritable
 INVARIANT ExportState
 ACTION_CONSTRAINT ExportTrans
